@@ -1527,10 +1527,12 @@ def register(PROPS):
                   'C15': (['Square'], ['rs_from_chars_eq']),
                   'C18': (['Table'], 'rs_table_put_eq rs_table_put_no_panic rs_table_get_eq rs_table_len_eq rs_table_clear_eq rs_table_new_eq rs_table_run_eq rs_table_run_spec'.split()),
                   'C04': (['Magic'], 'rs_magic_hash_eq rs_magic_get_attacks_eq rs_rook_attacks_eq rs_bishop_attacks_eq rs_rook_magics_eq rs_bishop_magics_eq'.split()),
-                  'C02': (['MakeUnmake', 'MoveBits', 'Generated'], 'rs_make_eq rs_make_generated rs_move_masks rs_move_shifts rs_move_decode_eq rs_move_encode_eq'.split()),
-                  'C03': (['MakeUnmake', 'MoveBits', 'Generated'], 'rs_unmake_eq rs_make_eq rs_unmake_generated rs_is_move_legal_generated rs_move_roundtrip rs_move_decode_eq'.split()),
-                  'C05': (['Check', 'Generated'], 'rs_is_square_in_check_eq rs_is_in_check_by_bits_eq rs_is_current_in_check_eq rs_is_in_check_eq rs_is_valid_eq rs_is_valid_after_make'.split()),
-                  'C06': (['ZobristXor', 'Generated'], 'rs_zobrist_xor_eq rs_zobrist_xor_generated'.split())}
+                  # module granularity matters: a module that fails to build fails all its theorems, so each property lists only
+                  # the function groups it depends on (Make / Unmake / GenMake / GenUnmake / GenXor are separate files)
+                  'C02': (['Make', 'MoveBits', 'GenMake'], 'rs_make_eq rs_make_generated rs_is_valid_after_make rs_move_masks rs_move_shifts rs_move_decode_eq rs_move_encode_eq'.split()),
+                  'C03': (['Make', 'Unmake', 'MoveBits', 'GenMake', 'GenUnmake'], 'rs_unmake_eq rs_make_eq rs_unmake_generated rs_is_move_legal_generated rs_move_roundtrip rs_move_decode_eq'.split()),
+                  'C05': (['Check'], 'rs_is_square_in_check_eq rs_is_in_check_by_bits_eq rs_is_current_in_check_eq rs_is_in_check_eq rs_is_valid_eq'.split()),
+                  'C06': (['ZobristXor', 'GenXor'], 'rs_zobrist_xor_eq rs_zobrist_xor_generated'.split())}
     # end-to-end corollaries at the process level (stdin text -> stdout text): Props/EndToEnd composes C12, C15, C13, C02, C07, C08, C16
     e2e = {'C07': ['app_go_bestmove_legal', 'app_run_go_bestmove_legal', 'app_go_bestmove_legal_after_moves'],
            'C08': ['app_go_depth_reports_minimax', 'infoLine_projected'],
